@@ -97,6 +97,10 @@ def TEARDOWN():
                     os.rmdir(p)
                 except OSError:
                     pass
+        try:
+            os.rmdir(SCRATCH)  # only succeeds when nothing is left
+        except OSError:
+            pass
 
 
 def self_overlapping(d):
